@@ -291,7 +291,7 @@ def main():
     idx_path = os.path.join(V, 'canaries', 'index.json')
     keep = []
     if os.path.exists(idx_path):
-        keep = [c for c in json.load(open(idx_path)) if c['name'].startswith('prefix-')]
+        keep = [c for c in json.load(open(idx_path)) if c['name'].startswith('prefix-') or c['name'].startswith('seeded-')]
     out = list(keep)
     bad = 0
     for s in SPECS:
@@ -314,7 +314,7 @@ def main():
         open(os.path.join(V, 'canaries', fn), 'w').write(''.join(chunks))
         out.append({'name': s['name'], 'file': fn, 'properties': s['properties'], 'rule': s['rule'], 'expect': s['expect']})
     json.dump(out, open(idx_path, 'w'), indent=1)
-    print('%d canaries (%d kept prefix-*), %d spec errors' % (len(out), len(keep), bad))
+    print('%d canaries (%d kept prefix-*/seeded-*), %d spec errors' % (len(out), len(keep), bad))
     return 1 if bad else 0
 
 
